@@ -66,6 +66,9 @@ type Ctx struct {
 	KnownHit    []string
 	Variants    []string
 	RuleAlias   map[string]string
+	// KeyOnly restricts what a borrowed rule records to the constructs the
+	// borrowing property depends on.
+	KeyOnly func(key string) bool
 
 	memo map[string]interface{}
 }
